@@ -1101,6 +1101,42 @@ func (vc *VC) checkAnchors() {
 		vc.oblige(vc.entry, "assert", fmt.Sprintf("call:%s#%d:missing:ghost", g.Anchor.Callee, g.Anchor.Ordinal), False, vc.c.Props,
 			fmt.Sprintf("ghost update %s call %s#%d cannot be placed: the call it is anchored to no longer occurs in the function", when(g.After), g.Anchor.Callee, g.Anchor.Ordinal), vc.fn.Pos())
 	}
+	// every call site of a callee that the contract instruments (ghost update / assertion / model) must be instrumented:
+	// a further, un-instrumented call of the same callee escapes what the contract accounts for
+	instrumented := map[string]map[int]bool{}
+	note := func(a Anchor) {
+		if a.Callee == "exit" || strings.HasPrefix(a.Callee, "mapupdate") {
+			return
+		}
+		if instrumented[a.Callee] == nil {
+			instrumented[a.Callee] = map[int]bool{}
+		}
+		instrumented[a.Callee][a.Ordinal] = true
+	}
+	for _, as := range vc.c.Asserts {
+		note(as.Anchor)
+	}
+	for _, g := range vc.c.Ghosts {
+		note(g.Anchor)
+	}
+	for _, ca := range vc.c.CallAs {
+		note(ca.Anchor)
+	}
+	if len(instrumented) > 0 && !vc.c.PartialAnchors {
+		for _, b := range vc.fn.Blocks {
+			for _, in := range b.Instrs {
+				if _, isCall := in.(ssa.CallInstruction); !isCall {
+					continue
+				}
+				n, o, ok := vc.anchorNameOrd(in)
+				if !ok || instrumented[n] == nil || instrumented[n][o] {
+					continue
+				}
+				vc.oblige(vc.entry, "assert", fmt.Sprintf("call:%s#%d:uninstrumented", n, o), False, vc.c.Props,
+					fmt.Sprintf("call %s#%d is not covered by the contract: other calls of %s carry ghost updates / assertions, this one does not", n, o, n), in.Pos())
+			}
+		}
+	}
 	for _, d := range vc.c.Dispatch {
 		if vc.anchorsHit[anchorKey("dispatch:"+d.Anchor.Callee, d.Anchor.Ordinal, false)] {
 			continue
